@@ -156,3 +156,25 @@ func VerifC06_capture_disjoint() {
 	buf[0] = 0xff
 	vAssert(ra[0] == 0x16 && rb[0] == 0x16, "capture-does-not-alias-the-callers-buffer")
 }
+
+// C06 — a connection's captured record stays its own after the capture conn is done and a LATER
+// connection (which may be handed recycled buffers) reads its own stream.
+func VerifC06_capture_later_connection() {
+	sa := []byte{0x16, 3, 1, 0, 1, vU8("a")}
+	sb := []byte{0x16, 3, 2, 0, 2, vU8("b"), vU8("b2")}
+	ua := &vConn{s: sa}
+	ca := NewHijackClientHelloConn(ua)
+	ua.next = 6
+	ca.Read(make([]byte, 16))
+	ra, ea := ca.GetClientHello() // connection A is established and keeps its record (keep-alive, h2)
+	ub := &vConn{s: sb}
+	cb := NewHijackClientHelloConn(ub)
+	ub.next = 7
+	cb.Read(make([]byte, 16))
+	rb, eb := cb.GetClientHello()
+	vReach("later-connection")
+	vAssert(ea == nil && eb == nil, "both-captured")
+	vAssert(string(rb) == string(sb), "each-capture-is-its-own-stream")
+	vAssert(string(ra) == string(sa), "earlier-record-not-overwritten-by-later-connection")
+	vAssert(!vSameSlice(ra, rb), "capture-buffers-disjoint")
+}
